@@ -29,6 +29,9 @@ TREES = [
     {"fields": ["x", "ab", "a_b"], "kids": []},
     {"fields": ["a_b"], "kids": [["sub", {"fields": ["a_b_c", "y"], "kids": []}]]},
     {"fields": ["x"], "kids": [["s_b", {"fields": ["ab"], "kids": [["deep", {"fields": ["z_z"], "kids": []}]]}]]},
+    # members named like the destination ("d0"), ending with it, and a leaf named like it: the nested spelling must drop
+    # exactly the first path component (seeded change C10-02)
+    {"fields": ["y"], "kids": [["d0", {"fields": ["ab", "d0"], "kids": []}], ["md0", {"fields": ["x"], "kids": [["d0", {"fields": ["z_z"], "kids": []}]]}]]},
 ]
 
 
